@@ -98,10 +98,17 @@ def subject(case):
     for k in ("left", "center", "right"):
         other[k] = [[2.0 * p[0] + 1.0, p[1] - 3.0] + list(p[2:]) for p in case[k]]
     la = apply_history(build_lanelet(other), hist[:i])
-    la.left_vertices = np.array(case["left"], dtype=float)
-    la.right_vertices = np.array(case["right"], dtype=float)
-    la.center_vertices = np.array(case["center"], dtype=float)
-    return apply_history(la, hist[i + 1:])
+    if "inplace" in hist:
+        # the arrays the getters hand out are overwritten in place and assigned back: the SAME objects
+        for k in ("left", "right", "center"):
+            arr = getattr(la, k + "_vertices")
+            arr[...] = np.array(case[k], dtype=float)
+            setattr(la, k + "_vertices", arr)
+    else:
+        la.left_vertices = np.array(case["left"], dtype=float)
+        la.right_vertices = np.array(case["right"], dtype=float)
+        la.center_vertices = np.array(case["center"], dtype=float)
+    return apply_history(la, [h for h in hist[i + 1:] if h != "inplace"])
 
 
 def effective(case):
@@ -543,9 +550,11 @@ def gen_dim(rng):
 def gen_history(rng, dim):
     """what happened to the lanelet between construction and the judged call"""
     if dim == 3:
-        return rng.choice([[], [], [], ["touch"], ["to2d"], ["touch", "to2d"], ["touch", "to2d"], ["touch", "set_vertices"]])
+        return rng.choice([[], [], [], ["touch"], ["to2d"], ["touch", "to2d"], ["touch", "to2d"], ["touch", "set_vertices"],
+                           ["touch", "set_vertices", "inplace"]])
     return rng.choice([[], [], [], [], ["touch"], ["to2d"], ["touch", "to2d"], ["touch", "set_vertices"], ["set_vertices"],
-                       ["touch", "set_vertices", "touch"]])
+                       ["touch", "set_vertices", "touch"], ["touch", "set_vertices", "inplace"],
+                       ["touch", "set_vertices", "inplace", "touch"]])
 
 
 def gen_lanelet_geom(rng, mode=None, n=None, dup=False, dim=None):
